@@ -1246,6 +1246,10 @@ func SelectExpr(query *Query, current Map, expr *sqlparser.SelectExprs, opts ...
 					if key == "<-" {
 						continue
 					}
+					// neither is a common table expression that shares the registry with the row
+					if _, ok := value.(CteEvaluation); ok {
+						continue
+					}
 					query.postProcessors = append(query.postProcessors, func() error {
 						delete(data, "<-")
 						return nil
